@@ -148,7 +148,7 @@ func exprAtoms() []*E {
 		lit("0x1F", data.Int(31)), lit("1e3", data.Float(1000)), lit("1.5e-2", data.Float(0.015)),
 		{K: "list"}, {K: "list", A: []*E{lit("1", data.Int(1)), lit("'b'", data.String("b"))}},
 		{K: "map"}, {K: "map", Keys: []string{"k"}, A: []*E{lit("'v'", data.String("v"))}},
-		vr("n"), vr("t"), vr("f"), vr("z"), vr("i"), vr("m"), vr("h"), vr("d"), vr("e"), vr("s"), vr("x"), vr("l"), vr("mp"),
+		vr("n"), vr("t"), vr("f"), vr("z"), vr("i"), vr("m"), vr("h"), vr("d"), vr("e"), vr("s"), vr("x"), vr("l"), vr("mp"), vr("l0"), vr("m0"),
 		vr("und"), vr("ij", Acc{Kind: "dot", Key: "x"}), vr("mp", Acc{Kind: "dot", Key: "k"}), vr("l", Acc{Kind: "idx", Idx: 0}),
 		glob("G_I", data.Int(7)), glob("g.s.S", data.String("gs")), glob("G_F", data.Float(1.5)), glob("G_B", data.Bool(false)), glob("G_N", data.Null{}),
 	}
